@@ -357,7 +357,8 @@ Record parsed := mk_parsed { p_title : option str; p_atoms : list patom; p_bonds
                              p_stereo : list (Z * Z * Z); p_log : list str }.
 
 Definition set_chg v (a : patom) := mk_patom (pa_elem a) v (pa_iso a) (pa_map a) (pa_x a) (pa_y a) (pa_z a) (pa_delta a) (pa_rad a) (pa_hyd a).
-Definition set_iso v (a : patom) := mk_patom (pa_elem a) (pa_chg a) (Some v) (pa_map a) (pa_x a) (pa_y a) (pa_z a) (pa_delta a) (pa_rad a) (pa_hyd a).
+(* M  ISO supersedes the mass difference of the atom block: atom['isotope'] = v; atom['delta_isotope'] = None *)
+Definition set_iso v (a : patom) := mk_patom (pa_elem a) (pa_chg a) (Some v) (pa_map a) (pa_x a) (pa_y a) (pa_z a) None (pa_rad a) (pa_hyd a).
 Definition set_rad (a : patom) := mk_patom (pa_elem a) (pa_chg a) (pa_iso a) (pa_map a) (pa_x a) (pa_y a) (pa_z a) (pa_delta a) true (pa_hyd a).
 Definition set_hyd v (a : patom) := mk_patom (pa_elem a) (pa_chg a) (pa_iso a) (pa_map a) (pa_x a) (pa_y a) (pa_z a) (pa_delta a) (pa_rad a) (Some v).
 
@@ -935,12 +936,13 @@ Section Readers.
   Variable build_rxn : rparsed -> pyres A.
   Variable buffer_size : nat.
 
-  (* SDFRead._read_block(current=False): (None = BufferOverflow | Some (buffer, m_end), rest of the file) *)
-  Fixpoint sdf_block (file : list str) (n : nat) (buf : list str) (m_end : option nat) : option (list str * option nat) * list str :=
+  (* SDFRead._read_block(current=False): (None = BufferOverflow | Some (buffer, m_end, stopped at a delimiter), rest of the file);
+     the flag is false when the file iterator was exhausted (the `else` of the for loop) *)
+  Fixpoint sdf_block (file : list str) (n : nat) (buf : list str) (m_end : option nat) : option (list str * option nat * bool) * list str :=
     match file with
-    | [] => (Some (buf, m_end), [])
+    | [] => (Some (buf, m_end, false), [])
     | line :: rest =>
-      if startswith (L "$$$$") line then (Some (buf, m_end), rest)
+      if startswith (L "$$$$") line then (Some (buf, m_end, true), rest)
       else if Nat.eqb n buffer_size then (None, rest)
       else
         let buf' := buf ++ [line] in
@@ -960,16 +962,18 @@ Section Readers.
   Definition sdf_read_structure (file : list str) : (A * list (str * str) + ioexn) * list str :=
     match sdf_block file 0 [] None with
     | (None, rest) => (inr BufferOverflow, rest)
-    | (Some ([], _), rest) => (inr EOFError, rest)
-    | (Some (buf, None), rest) => (inr (Py ValueError), rest)              (* InvalidMolBlock *)
-    | (Some (buf, Some k), rest) =>
+    | (Some ([], _, false), rest) => (inr EOFError, rest)                     (* end of file *)
+    | (Some ([], _, true), rest) => (inr (Py ValueError), rest)               (* empty record: InvalidMolBlock *)
+    | (Some (buf, None, _), rest) => (inr (Py ValueError), rest)              (* InvalidMolBlock *)
+    | (Some (buf, Some k, _), rest) =>
       match dispatch_mol (firstn k buf) with
       | Err e => (inr (Py e), rest)
       | Ok mol => (inl (mol, sdf_read_metadata (skipn k buf)), rest)
       end
     end.
 
-  (* MDLRead.__iter__ *)
+  (* MDLRead.__iter__: `except (ValueError, IndexError): pass` *)
+  Definition is_skipped (e : pyexn) : bool := is_value_error e || match e with IndexError => true | _ => false end.
   Fixpoint sdf_iter (fuel : nat) (file : list str) : list (A * list (str * str)) * outcome :=
     match fuel with
     | O => ([], OutOfFuel)
@@ -977,7 +981,7 @@ Section Readers.
       match sdf_read_structure file with
       | (inl x, rest) => let '(l, o) := sdf_iter f rest in (x :: l, o)
       | (inr EOFError, _) => ([], Exhausted)
-      | (inr (Py e), rest) => if is_value_error e then sdf_iter f rest else ([], Crashed (Py e))
+      | (inr (Py e), rest) => if is_skipped e then sdf_iter f rest else ([], Crashed (Py e))
       | (inr e, _) => ([], Crashed e)
       end
     end.
@@ -1033,7 +1037,7 @@ Section Readers.
       match rdf_read_structure tell file with
       | (inl x, rest) => let '(l, o) := rdf_iter f (S tell) rest in (x :: l, o)
       | (inr EOFError, _) => ([], Exhausted)
-      | (inr (Py e), rest) => if is_value_error e then rdf_iter f (S tell) rest else ([], Crashed (Py e))
+      | (inr (Py e), rest) => if is_skipped e then rdf_iter f (S tell) rest else ([], Crashed (Py e))
       | (inr e, _) => ([], Crashed e)
       end
     end.
